@@ -32,11 +32,11 @@ def mk(docs, job, cfg):
             k = st['ev']
             st['ev'] += 1
             if fixed_crash is not None:
-                hit = (fixed_crash[0] == st['op'] and fixed_crash[1] == k)
+                hit = (fixed_crash[0] == len(ops_out) and fixed_crash[1] == k)
             else:
                 hit = x.flip('crash_before_op%s_ev%d' % (st['op'], k))
             if hit:
-                st['crashed'] = (st['op'], k, kind)
+                st['crashed'] = (len(ops_out), k, kind)       # index of the interrupted op in the replay script
                 raise Crash()
         x.before_io = before_io
         pe = BV(z3.BitVecVal(pe_val, 32), 32) if consistency == 'AtLeastOnce' else None
@@ -63,6 +63,21 @@ def mk(docs, job, cfg):
                 mark = len(x.io_log)
                 acked.setdefault(topic, [])
                 delivered.setdefault(topic, 0)
+                if kind == 'X':
+                    # clean shutdown and restart in a fresh process; the I/O events of the reopen are crash points too
+                    ops_out.append(dict(op='restart_process'))
+                    events_per_op.append([])
+                    engine.drop_value(x, w)
+                    envmodel.reset_process(x)
+                    st.update(op='%s+open' % i, ev=0)
+                    mark = len(x.io_log)
+                    ops_out.append(dict(op='open'))
+                    r = engine.open_walrus(x, consistency, pe)
+                    if r.variant != 'Ok':
+                        return dict(job=job, verdict='cex', kind='recover-failed', detail='clean reopen returned Err', ops=ops_out, witness=minimise(x, list(vars_)), crash=None)
+                    w = r.f[0]
+                    events_per_op.append([k_ for k_, _ in x.io_log[mark:]])
+                    continue
                 if kind in ('a', 'A'):
                     ents = []
                     for _ in range(n):
@@ -137,6 +152,36 @@ def mk(docs, job, cfg):
             return dict(job=job, verdict='cex', kind='recover-failed', detail='reopen after the crash returned Err', ops=ops_out, witness=minimise(x, list(vars_)),
                         crash=[crash_op, crash_ev, crash_kind])
         w2 = r.f[0]
+        ops_post = []
+        for kind, topic, n in parse_skel(job['post']) if job.get('post') else []:
+            if kind == 'a':
+                j = len(sizes)
+                s = BV(bv64(conc['sizes'][j]), 64) if conc else x.symbv('size%d' % j)
+                if not conc:
+                    x.solver.add(z3.ULE(s.t, sizecap))
+                sizes.append(s)
+                vars_.append(('size%d' % j, s.t))
+                size_of[uid] = s
+                res = engine.api(x, w2, 'append_for_topic', [PStr(topic), engine.payload(uid, s.t)])
+                ops_post.append(dict(op='append', topic=topic, entries=[dict(uid=uid, len='size%d' % j)]))
+                if res.variant == 'Ok':
+                    acked.setdefault(topic, []).append(uid)
+                    delivered.setdefault(topic, 0)
+                elif res.variant == 'Panic':
+                    return dict(job=job, verdict='cex', kind='panic', detail='append after recovery panicked: %s' % res.f[0], ops=ops_out, post=ops_post, witness=minimise(x, list(vars_)), crash=[crash_op, crash_ev, crash_kind])
+                uid += 1
+            elif kind == 'X':
+                ops_post.append(dict(op='restart_process'))
+                ops_post.append(dict(op='open'))
+                engine.drop_value(x, w2)
+                envmodel.reset_process(x)
+                try:
+                    r = engine.open_walrus(x, consistency, pe)
+                except Panic as p:
+                    return dict(job=job, verdict='cex', kind='recover-panic', detail='second recovery panicked: %s' % p, ops=ops_out, post=ops_post, witness=minimise(x, list(vars_)), crash=[crash_op, crash_ev, crash_kind])
+                if r.variant != 'Ok':
+                    return dict(job=job, verdict='cex', kind='recover-failed', detail='second reopen returned Err', ops=ops_out, post=ops_post, witness=minimise(x, list(vars_)), crash=[crash_op, crash_ev, crash_kind])
+                w2 = r.f[0]
         drained = {}
         bad = None
         for topic in sorted(acked):
@@ -204,8 +249,8 @@ def mk(docs, job, cfg):
                     bad = ('c08-partial-batch', 'topic %s: batch %s was in flight, recovery exposes only %s' % (topic, infl, infl[:cls[1]]))
                     break
         if bad:
-            return dict(job=job, verdict='cex', kind=bad[0], detail=bad[1], ops=ops_out, witness=minimise(x, list(vars_)), crash=[crash_op, crash_ev, crash_kind],
+            return dict(job=job, verdict='cex', kind=bad[0], detail=bad[1], ops=ops_out, post=ops_post, witness=minimise(x, list(vars_)), crash=[crash_op, crash_ev, crash_kind],
                         summary=summary, flags=sorted(x.path_flags))
         wit = x.model_values(dict(vars_)) if cfg.get('witness', True) and not conc else None
-        return dict(job=job, verdict='ok', ops=ops_out, witness=wit, crash=[crash_op, crash_ev, crash_kind], summary=summary, flags=sorted(x.path_flags))
+        return dict(job=job, verdict='ok', ops=ops_out, post=ops_post, witness=wit, crash=[crash_op, crash_ev, crash_kind], summary=summary, flags=sorted(x.path_flags))
     return x, driver
